@@ -23,9 +23,13 @@ class ReplayDivergence(RuntimeError):
 class Execution:
     """one complete run under a given choice prefix"""
 
-    def __init__(self, bodies, whitelist, prefix, max_points=20000):
+    def __init__(self, bodies, whitelist, prefix, max_points=20000,
+                 opcode_funcs=()):
         self.bodies = bodies
         self.whitelist = whitelist  # set of (filename_suffix, funcname)
+        # functions traced at BYTECODE granularity (scheduling point before
+        # every opcode), the others at line granularity
+        self.opcode_funcs = set(opcode_funcs)
         self.prefix = list(prefix)
         self.points = []  # list of dict(enabled=[tids], running=tid, chosen=i)
         self.n = len(bodies)
@@ -54,12 +58,17 @@ class Execution:
 
     def _make_tracer(self, tid):
         def local(frame, event, arg):
-            if event == "line":
+            if event == "line" and not frame.f_trace_opcodes:
                 self._point(tid, (frame.f_code.co_name, frame.f_lineno))
+            elif event == "opcode":
+                self._point(tid, (frame.f_code.co_name, frame.f_lineno,
+                                  frame.f_lasti))
             return local
 
         def tracer(frame, event, arg):
             if event == "call" and self._wanted(frame.f_code):
+                if frame.f_code.co_name in self.opcode_funcs:
+                    frame.f_trace_opcodes = True
                 return local
             return None
 
@@ -152,7 +161,7 @@ class Execution:
 
 class Explorer:
     def __init__(self, make_bodies, whitelist, check, bound=2,
-                 max_schedules=None):
+                 max_schedules=None, opcode_funcs=()):
         """make_bodies() -> (list of thread callables, context); called afresh
         for every execution so that no state leaks between schedules.
         check(execution, context) -> list of problems."""
@@ -161,6 +170,7 @@ class Explorer:
         self.check = check
         self.bound = bound
         self.max_schedules = max_schedules
+        self.opcode_funcs = opcode_funcs
         self.schedules = 0
         self.transitions = 0
         self.violations = []
@@ -170,7 +180,8 @@ class Explorer:
 
     def run_one(self, prefix):
         bodies, ctx = self.make_bodies()
-        ex = Execution(bodies, self.whitelist, prefix).run()
+        ex = Execution(bodies, self.whitelist, prefix,
+                       opcode_funcs=self.opcode_funcs).run()
         return ex, ctx
 
     def explore(self):
